@@ -3,8 +3,9 @@
      dec_col  mirrors the `match binary_type { … match canonical_type { … } }` of decode_prop_chunk
               (deserializer/state.rs)
    arm by arm, with the Rust text in comments.  One column = the values of one property for all the
-   instances of one class, in INST order.  The code is modelled AS PINNED (including the Ray arm that
-   writes direction.x twice and the reversed Content object deque).
+   instances of one class, in INST order.  The code is modelled AS IT IS in the working tree (including
+   the reversed Content object deque); behaviour before a repair survives only under `_pinned` names
+   where a refutation witness is stated about it.
    Outcomes: `Ok`, `Err code` (the enum below), `Panic` (unwrap / expect / panic! / index).
    Allocations whose size is read from the input (`Vec::with_capacity(len)`, `vec![0; count]`) go
    through [palloc]: with limit [Some L] a request of more than L bytes ends the decode with
@@ -28,6 +29,8 @@ Definition E_OCF_FORMAT : N := 10.    (* BadOptionalCFrameFormat *)
 Definition E_CONTENT_TYPE : N := 11.  (* BadContentType *)
 Definition E_INFLATE : N := 12.       (* Io from lz4 / zstd *)
 Definition E_ALLOC : N := 13.         (* an input-sized allocation above the limit (model-only outcome) *)
+Definition E_CHUNK_RESERVED : N := 14. (* Io: InvalidData "Chunk reserved space was not zero" *)
+Definition E_UNKNOWN_REFERENT : N := 15. (* UnknownReferent (PRNT parent not declared) *)
 (* encoder (serializer/error.rs InnerError) *)
 Definition EE_TYPE_MISMATCH : N := 20.   (* PropTypeMismatch *)
 Definition EE_UNSUPPORTED : N := 21.     (* UnsupportedPropType *)
@@ -146,8 +149,8 @@ Fixpoint tags_encode (ts : list bytes) : bytes :=
 (* Tags::decode: split on 0, drop empty pieces, each piece must be UTF-8 *)
 Fixpoint split0 (cur : bytes) (b : bytes) : list bytes :=      (* cur = current piece, reversed *)
   match b with
-  | [] => [rev cur]
-  | x :: r => if N.eqb x 0 then rev cur :: split0 [] r else split0 (x :: cur) r
+  | [] => [rev_append cur []]
+  | x :: r => if N.eqb x 0 then rev_append cur [] :: split0 [] r else split0 (x :: cur) r
   end.
 Definition tags_decode (buf : bytes) : option (list bytes) :=
   let pieces := filter (fun p => match p with [] => false | _ => true end) (split0 [] buf) in
@@ -188,6 +191,13 @@ Definition enc_rot (m : mat3) : bytes :=
                    ++ w_f32 (vx (my m)) ++ w_f32 (vy (my m)) ++ w_f32 (vz (my m))
                    ++ w_f32 (vx (mz m)) ++ w_f32 (vy (mz m)) ++ w_f32 (vz (mz m))
   end.
+
+(* the Ray arm of serialize_properties, one value *)
+Definition ray_bytes (o d : vec3) : bytes :=
+  w_f32 (vx o) ++ w_f32 (vy o) ++ w_f32 (vz o) ++ w_f32 (vx d) ++ w_f32 (vy d) ++ w_f32 (vz d).
+(* the arm before repair de369328 (direction.x written in place of direction.z); kept for ray_refuted *)
+Definition ray_bytes_pinned (o d : vec3) : bytes :=
+  w_f32 (vx o) ++ w_f32 (vy o) ++ w_f32 (vz o) ++ w_f32 (vx d) ++ w_f32 (vy d) ++ w_f32 (vx d).
 
 (* ------------------------------------------------------------------------- encoder *)
 Record enc_ctx := mkEC {
@@ -255,8 +265,7 @@ Definition enc_col (ty : wire_type) (c : enc_ctx) (vs : list value) : res bytes 
       Ok (concat parts)
   | WRay =>
       parts <- collect (fun v => match v with
-        | VRay o d => Ok (w_f32 (vx o) ++ w_f32 (vy o) ++ w_f32 (vz o) ++
-                          w_f32 (vx d) ++ w_f32 (vy d) ++ w_f32 (vx d))  (* as pinned: direction.x written in place of direction.z *)
+        | VRay o d => Ok (ray_bytes o d)
         | _ => mismatch end) vs ;;
       Ok (concat parts)
   | WFaces =>
@@ -445,12 +454,12 @@ Fixpoint content_values (c : dec_ctx) (tys : list Z) (uris : list bytes) (object
   | ty :: rest =>
       match ty with
       | 0%Z => r <- content_values c rest uris objects ;; Ok (VContent CNone :: r)
-      | 1%Z => match pop_back uris with                                 (* uris.pop_back().unwrap() *)
-               | None => Panic
+      | 1%Z => match pop_back uris with                                 (* uris.pop_back().ok_or_else(InvalidPropData)? *)
+               | None => Err E_INVALID_DATA
                | Some (u, uris') => r <- content_values c rest uris' objects ;; Ok (VContent (CUri u) :: r)
                end
-      | 2%Z => match pop_back objects with                              (* objects.pop_back().unwrap() *)
-               | None => Panic
+      | 2%Z => match pop_back objects with                              (* objects.pop_back().ok_or_else(InvalidPropData)? *)
+               | None => Err E_INVALID_DATA
                | Some (o, objects') =>
                    r <- content_values c rest uris objects' ;; Ok (VContent (CObject (dc_resolve c o)) :: r)
                end
@@ -505,12 +514,12 @@ Definition dec_col (ty : wire_type) (cty : N) (c : dec_ctx) (n : nat) : parser (
       else if N.eqb cty VT_Int64 then vs <== dec_i32_array n ;; pret (List.map VInt64 vs)      (* i64::from(value) *)
       else tmismatch
   | WFloat32 =>
-      if N.eqb cty VT_Float32 then vs <== dec_f32_array n ;; pret (List.map VFloat32 vs) else tmismatch
-  | WFloat64 =>
-      if N.eqb cty VT_Float64 then prepeat n (x <== read_f64le ;; pret (VFloat64 x))
-      else if N.eqb cty VT_Float32 then                                  (* as pinned: the widening arm sits under Type::Float64 *)
+      if N.eqb cty VT_Float32 then vs <== dec_f32_array n ;; pret (List.map VFloat32 vs)
+      else if N.eqb cty VT_Float64 then                                  (* f64::from(value): a Float32 column for a Float64 property *)
         vs <== dec_f32_array n ;; pret (List.map (fun x => VFloat64 (f64_of_f32 x)) vs)
       else tmismatch
+  | WFloat64 =>
+      if N.eqb cty VT_Float64 then prepeat n (x <== read_f64le ;; pret (VFloat64 x)) else tmismatch
   | WUDim =>
       if N.eqb cty VT_UDim then
         s <== dec_f32_array n ;; o <== dec_i32_array n ;;
@@ -675,7 +684,7 @@ Definition dec_col (ty : wire_type) (cty : N) (c : dec_ctx) (n : nat) : parser (
         _ <== palloc lim (4 * object_count) ;;                          (* vec![0; object_count] *)
         (fun b => if N.ltb (N.of_nat (length b)) (4 * object_count) then Err E_EOF
                   else (objects <== dec_ref_array (N.to_nat object_count) ;;
-                        (* chunk.read_le_u32().unwrap() *)
+                        (* chunk.read_le_u32()? *)
                         fun b2 => match read_le 4 b2 with
                                   | Ok (external_count, b3) =>
                                       match palloc lim (4 * external_count) b3 with      (* vec![0; external_count * 4] *)
@@ -687,7 +696,7 @@ Definition dec_col (ty : wire_type) (cty : N) (c : dec_ctx) (n : nat) : parser (
                                           end
                                       | Err e => Err e | Panic => Panic | OutOfFuel => OutOfFuel
                                       end
-                                  | _ => Panic
+                                  | Err e => Err e | Panic => Panic | OutOfFuel => OutOfFuel
                                   end) b)
       else tmismatch
   end.
